@@ -404,39 +404,44 @@ def witness_instance(cid, ctx, fn, a, b, lo, hi, meta, extra=None):
 STAGE_WALL = {}
 
 
-def certify_ladder(calls, builders, tag, budget, jobs=NPROC):
-    """calls: cid -> call dict; builders: cid -> function(stage) -> [instances]; the containment of a call is proved when all
-    instances of one stage pass.  -> {cid: ("pass"|"inconclusive", stage, secs)} , all certify results"""
+def certify_ladder(calls, builders, tag, budget, jobs=8):
+    """calls: cid -> call dict; builders: cid -> function(stage) -> [instances].  Round 1: `i_bisect x, i_autodiff x`.
+    Round 2 (for what is left): `i_taylor x` and the generator-side split at the critical points, side by side; the
+    containment of a call is proved when all instances of ONE variant pass.
+    -> {cid: ("pass"|"inconclusive", stage, secs)}, all certify results"""
     t_end = time.time() + budget
     status = {}
     results = []
     pending = list(calls)
-    for stage in ("autodiff", "taylor", "split"):
+    for rnd, stages in enumerate((("autodiff",), ("taylor", "split"))):
         if not pending: break
         insts = []
         owner = {}
         for cid in pending:
-            for ins in builders[cid](stage):
-                insts.append(ins); owner[ins.id] = cid
+            for stage in stages:
+                for ins in builders[cid](stage):
+                    insts.append(ins); owner[ins.id] = (cid, stage)
         if not insts: break
         left = t_end - time.time()
         if left < 8:
             break
-        res = cert.certify(insts, tactic_params={"ladder": [1, 2] if stage != "autodiff" else [1], "sentence_timeout": 25 if stage == "autodiff" else 40,
+        res = cert.certify(insts, tactic_params={"ladder": [1] if rnd == 0 else [1, 2], "sentence_timeout": 25 if rnd == 0 else 40,
                                                  "single_timeout": 45, "batch": 12},
-                           jobs=jobs, timeout=left * (0.55 if stage == "autodiff" else 0.7), tag="%s_%s" % (tag, stage))
+                           jobs=jobs, timeout=left * (0.6 if rnd == 0 else 0.9), tag="%s_r%d" % (tag, rnd + 1))
         results.append(res)
-        STAGE_WALL[stage] = STAGE_WALL.get(stage, 0) + res["wall_s"]
+        STAGE_WALL["+".join(stages)] = res["wall_s"]
         by = {}
         for iid, v in res["verdicts"].items():
             by.setdefault(owner[iid], []).append(v)
         nxt = []
         for cid in pending:
-            vs = by.get(cid, [])
-            if vs and all(v["verdict"] == "pass" for v in vs):
-                status[cid] = ("pass", stage, sum(v["secs"] for v in vs))
-            else:
-                nxt.append(cid)
+            done = None
+            for stage in stages:
+                vs = by.get((cid, stage), [])
+                if vs and all(v["verdict"] == "pass" for v in vs):
+                    done = (stage, sum(v["secs"] for v in vs)); break
+            if done: status[cid] = ("pass", done[0], done[1])
+            else: nxt.append(cid)
         pending = nxt
     for cid in pending:
         status[cid] = ("inconclusive", "ladder-exhausted", 0.0)
@@ -449,7 +454,7 @@ def run_elementary(rep, tier_, rng, budget=None):
     from mpmath import iv
     t0 = time.time()
     budget = budget or (75 if tier_ == "quick" else 600)
-    n = 90 if tier_ == "quick" else 900
+    n = 80 if tier_ == "quick" else 900
     precs = [24, 53, 100] if tier_ == "quick" else [24, 53, 100, 200, 300]
     ctx = hint_ctx()
     calls = {}; builders = {}; direct = []; point_insts = []; wit = {}
@@ -505,7 +510,7 @@ def run_elementary(rep, tier_, rng, budget=None):
         rep.violation("C14 %s: %s (regime %s, prec %d)" % (call["fn"], viol, call["regime"], call["prec"]), dict(call, clause="finite result"))
     # point goals + predicted witnesses first (cheap), then the universally quantified containment ladder
     pre = point_insts + list(wit.values())
-    res_pre = cert.certify(pre, tactic_params={"sentence_timeout": 30, "single_timeout": 45}, jobs=NPROC, timeout=budget * 0.25,
+    res_pre = cert.certify(pre, tactic_params={"sentence_timeout": 30, "single_timeout": 45}, jobs=4, timeout=budget * 0.25,
                            tag="C14E_%s_points" % tier_) if pre else {"verdicts": {}, "cmds": [], "dir": ""}
     Vp = res_pre["verdicts"]
     stats = {"contain_pass": 0, "contain_fail": 0, "inconclusive": 0, "trivial": 0}
